@@ -1864,6 +1864,15 @@ impl Ref {
 
     /// Execute one direct-mode line. Returns how it ended; output appended to `out`.
     pub fn direct_line(&mut self, stmts: &[Stmt]) -> Ended {
+        if !stmts.is_empty() && stmts.iter().all(|s| matches!(s, Stmt::Data(_))) {
+            // DATA typed as a direct statement: no effect on the program's DATA; what it answers and
+            // what of the pending execution state survives is not settled
+            self.cont = None;
+            self.cont_after_error = true;
+            self.stack.clear();
+            self.ready();
+            return Ended::Ready;
+        }
         self.direct.clear();
         let mut v = vec![];
         flatten(stmts, &mut v);
